@@ -177,6 +177,47 @@ func writeModule(root string, p *Program, convs []*ConvSpec) {
 	}
 }
 
+// keyTypesLit: Go literal of the set of key types of all maps reachable from t (as reflect prints them); nil when a key
+// is an unnamed struct (formatting differs).
+func keyTypesLit(p *Program, t *Ty) string {
+	set := map[string]bool{}
+	ok := true
+	seen := map[int]bool{}
+	var walk func(t *Ty)
+	walk = func(t *Ty) {
+		switch t.K {
+		case "named":
+			if !seen[t.ID] {
+				seen[t.ID] = true
+				walk(p.Named[t.ID].Under)
+			}
+		case "ptr", "slice", "arr":
+			walk(t.Elem)
+		case "map":
+			if t.Key.K == "struct" || t.Key.K == "other" {
+				ok = false
+			}
+			set[p.goType(t.Key, 0)] = true
+			walk(t.Key)
+			walk(t.Elem)
+		case "struct":
+			for _, f := range t.Fields {
+				walk(f.T)
+			}
+		}
+	}
+	walk(t)
+	if !ok {
+		return "nil"
+	}
+	var ks []string
+	for k := range set {
+		ks = append(ks, fmt.Sprintf("%q: true", k))
+	}
+	sort.Strings(ks)
+	return "map[string]bool{" + strings.Join(ks, ", ") + "}"
+}
+
 // methodSig renders a declared converter method: contexts before or after the source, optional error result.
 func methodSig(p *Program, m *MethodSpec) string {
 	var ps []string
@@ -525,6 +566,9 @@ func snapshot(srcp interface{}) string {
 `
 
 const errPrelude = `
+// key types of the maps inside the source value of the running case (nil: not checked)
+var srcKeyTypes map[string]bool
+
 func clearFailed() { sup.Failed = nil }
 
 // direct statement of C07: no custom function failed when the method returns without an error ...
@@ -560,6 +604,9 @@ func reportErr(w *bufio.Writer, id int, err error) {
 					es = append(es, fmt.Sprintf("DIndex %d", x.Idx))
 				default:
 					es = append(es, fmt.Sprintf("DKey (%d)", x.Key))
+					if srcKeyTypes != nil && !srcKeyTypes[x.KT] {
+						fmt.Fprintf(w, "O\t%d\tthe Key element of the error path has type %s, which is no key type of the source (the location must name the SOURCE map key)\n", id, x.KT)
+					}
 				}
 			}
 			wraps = append(wraps, "[" + strings.Join(es, "; ") + "]")
@@ -610,7 +657,7 @@ func writeDriver(root string, p *Program, cases []*runCase, race bool) {
 		for _, d := range b.decls {
 			body.WriteString("\t" + d + "\n")
 		}
-		fmt.Fprintf(&body, "\tvar src %s = %s\n\tbefore := snapshot(&src)\n", p.goType(rc.Src.T, 0), expr)
+		fmt.Fprintf(&body, "\tvar src %s = %s\n\tbefore := snapshot(&src)\n\tsrcKeyTypes = %s\n", p.goType(rc.Src.T, 0), expr, keyTypesLit(p, rc.Src.T))
 		pkg := "generated"
 		if rc.SamePk {
 			pkg = "p"
